@@ -229,6 +229,9 @@ class FieldSym(AbstractValue):
     def v_type(self, it):
         return self.cls
 
+    def v_int(self, it):
+        return self          # int() of a canonical residue is the residue
+
     def v_isinstance(self, T, it):
         if T == "int":
             return self.cls.modulus is not None      # secp256k1 codes field elements as ints
